@@ -110,4 +110,19 @@ theorem tx_run_refines_puts (fuel d cf : Nat) (t t1 : N) (ops : List Op) (cops :
   rw [C05.cursor_refines_spec_partial (toCur t1) d cf cops hw.1 hw.2 hne
     (by rw [toCur_depth, hdep]; exact hd) hcf, C05.specOf, toCur_flatten, hfl]
 
+/-- **any mixture of First/Last/Next/Prev/Seek inside the write transaction, after ANY Put/Delete
+    calls (emptied leaves included), returns what the same calls return on the sorted list of the
+    specified content with a position** (holds since the repair of F11) -/
+theorem tx_run_refines (fuel d cf : Nat) (t t1 : N) (ops : List Op) (cops : List C05.Op)
+    (hc : Committed t) (hk : ∀ o ∈ ops, o.ok)
+    (hf : depth t ≤ fuel) (h : applyOps fuel t ops = some t1)
+    (hd : depth t ≤ d) (hcf : Cur.size (toCur t1) ≤ cf) :
+    C05.runImpl d cf (toCur t1) [] cops =
+      C05.runSpec { keys := ((specOps (flatten t) ops).map toCurItem).map Cur.Item.view, pos := none } cops := by
+  obtain ⟨t1', h', hi, hdep, hfl⟩ := C04Tree.applyOps_refines fuel t ops (C04Tree.committed_inTx t hc) hk hf
+  rw [h] at h'; cases h'
+  have hw := inTx_cursor_wf t1 hi
+  rw [C05.cursor_refines_spec (toCur t1) d cf cops hw.1 hw.2
+    (by rw [toCur_depth, hdep]; exact hd) hcf, C05.specOf, toCur_flatten, hfl]
+
 end Bolt.C05Tx
